@@ -231,18 +231,36 @@ func c13Run(db *badger.DB, prefix string, ops []c13Op, queries []c13Query, emit 
 			}
 			qcs = append(qcs, rec)
 		})
+		inited := false
 		for oi, op := range ops {
 			before, had := model[op.ID]
 			beforeModel := map[string]c13Val{}
 			for k, v := range model {
 				beforeModel[k] = v
 			}
-			wt := st.Write(op.ID)
+			var wt store.WriteTxn
+			if op.Kind != "init" {
+				wt = st.Write(op.ID)
+			}
 			var err error
 			ok := false
 			multi := op.Kind == "upup" || op.Kind == "updel"
 			multiChanges := 0
 			switch op.Kind {
+			case "init":
+				// Store.Init seeds the id unless it exists already, once per store
+				err = st.Init(func(add func(id string, v interface{})) error {
+					add(op.ID, c13Vals[op.Val].value())
+					return nil
+				})
+				if err != nil {
+					emit("C13", fmt.Sprintf("op %d %s: Init returned %v", oi, op, err))
+				}
+				if !inited && !had {
+					model[op.ID] = c13Vals[op.Val]
+					ok = true
+				}
+				inited = true
 			case "create":
 				err = wt.Create(c13Vals[op.Val].value())
 				if err == nil {
@@ -287,7 +305,9 @@ func c13Run(db *badger.DB, prefix string, ops []c13Op, queries []c13Query, emit 
 					}
 				}
 			}
-			wt.Close()
+			if wt != nil {
+				wt.Close()
+			}
 			n0 := len(qcs)
 			qs.Flush()
 			// C14: callbacks for this mutation
@@ -370,6 +390,15 @@ func c13Run(db *badger.DB, prefix string, ops []c13Op, queries []c13Query, emit 
 	return strings.Join(ids, ","), strings.Join(sigs, ";")
 }
 
+func usedKind(ops []c13Op, kind string) bool {
+	for _, o := range ops {
+		if o.Kind == kind {
+			return true
+		}
+	}
+	return false
+}
+
 func runC13(c *seqCtx) {
 	depth := 3
 	if c.thorough {
@@ -422,6 +451,14 @@ func runC13(c *seqCtx) {
 			if len(ops) == 3 {
 				vals = []int{0, 2, 5, 8}
 				multi = nil
+			}
+			if !usedKind(ops, "init") && len(ops) < 3 {
+				// Store.Init seeding this id (skipped when the id exists), once per history
+				for _, vi := range []int{1, 5} {
+					np := copyPresent(present)
+					np[id] = true
+					rec(append(append([]c13Op{}, ops...), c13Op{"init", id, vi}), np)
+				}
 			}
 			if present[id] {
 				for _, vi := range vals {
